@@ -350,6 +350,80 @@ def run_tlc(window, ctx):
                 "first": states[0], "last": states[-1]})
 
 
+# -- ordered pairs of constructions whose (year, month) would collide under a lossy memo key -------------------------
+
+def collision_pairs():
+    """Pairs of (year, month) that a careless key would confuse: the digits of year and month written without a
+    separator (2001|3 = 200|13 ...), with the month as given and as shifted by Meeus' algorithm (January and February
+    count as months 13 and 14 of the previous year), and years of equal magnitude and opposite sign."""
+    pairs = set()
+    for shifted in (False, True):
+        groups = {}
+        for y in range(Y0, Y1 + 1):
+            for m in range(1, 13):
+                yk, mk = (y - 1, m + 12) if (shifted and m <= 2) else (y, m)
+                groups.setdefault(str(yk) + str(mk), []).append((y, m))
+        for g in groups.values():
+            if len(g) > 1:
+                for a in g:
+                    for b in g:
+                        if a != b:
+                            pairs.add((a, b))
+    for y in range(1, 4713):
+        for m in (2, 3, 12):
+            pairs.add(((-y, m), (y, m)))
+            pairs.add(((y, m), (-y, m)))
+    return sorted(pairs)
+
+
+def _month_probe(y, m):
+    """JDE of the 5th, acceptance of the last day, refusal of the day after it: None or a message."""
+    L = cal.mlen(y, m)
+    if (y, m) == (1582, 10):
+        return None
+    j = Epoch(y, m, 5).jde()
+    if j != cal.day_number(y, m, 5) - 0.5:
+        return "Epoch(%d,%d,5).jde() = %r, calendar gives %r" % (y, m, j, cal.day_number(y, m, 5) - 0.5)
+    g = Epoch(y, m, 5).get_date()
+    if g != (y, m, 5.0):
+        return "Epoch(%d,%d,5).get_date() = %r" % (y, m, g)
+    try:
+        if Epoch(y, m, L).jde() != cal.day_number(y, m, L) - 0.5:
+            return "Epoch(%d,%d,%d).jde() wrong" % (y, m, L)
+    except ValueError:
+        return "Epoch(%d,%d,%d) refused, the month has %d days" % (y, m, L, L)
+    try:
+        Epoch(y, m, L + 1)
+        return "Epoch(%d,%d,%d) accepted, the month has %d days" % (y, m, L + 1, L)
+    except ValueError:
+        return None
+
+
+def check_collision_pair(case):
+    (y1, m1), (y2, m2) = case["first"], case["then"]
+    try:
+        _month_probe(y1, m1)
+        Epoch(y1, m1, cal.mlen(y1, m1))         # the last thing seen is an accepted date of the first month
+        r = _month_probe(y2, m2)
+    except Exception as ex:
+        return ["after %r: probing %r raised %r" % ((y1, m1), (y2, m2), ex)]
+    return ["right after dates of %d-%02d: %s" % (y1, m1, r)] if r else []
+
+
+def run_collision_pairs(block, ctx):
+    for a, b in block:
+        ctx.evals += 12
+        ctx.transitions += 1
+        ctx.nt_count += 1
+        case = {"first": list(a), "then": list(b)}
+        for msg in check_collision_pair(case):
+            ctx.viol(case, msg, site="collision_pair")
+    ctx.outcome(len(block))
+    ctx.traces += 1
+    ctx.obs(block[0], block[-1])
+    ctx.sample({"first": list(block[0][0]), "then": list(block[0][1])})
+
+
 # -- decode a Julian-calendar day, then the Gregorian day a whole number of 400-year cycles later --------------------
 
 def run_cycle_pairs(spec, ctx):
@@ -542,6 +616,8 @@ def clauses(tier):
         Clause("anchors", [0], run_anchors, replay_anchor, floor=3, shape="S"),
         Clause("cycle_pairs", [(z, min(z + 9200, 2299161), 1 if tier == "thorough" else 3) for z in range(0, 2299161, 9200)],
                run_cycle_pairs, replay_cycle_pair, floor=100000, shape="H"),
+        Clause("key_collision_pairs", chunks(collision_pairs(), 64), run_collision_pairs, check_collision_pair,
+               floor=10000, shape="H"),
         Clause("static_history", chunks(static_sequences(tier), 64), run_static_history, check_static_history,
                floor=5000, shape="H"),
     ]
